@@ -39,6 +39,13 @@ def rule_C10(env):
     samples = []
     # "unless ... were enabled": the configuration a user gets without asking for anything has both opt-ins off
     PV.default_flags_premise(env, res, ["allow_ext_opcodes", "allow_buffer_opcodes"], "EXT / buffer opcodes are opt-in: the default must be off")
+    # the flag guards of can_emit only protect anything if can_emit (of THIS generator, in THIS state) is what filters the choice
+    import rules_c01
+    tmp = Result("C10", "proof")
+    rules_c01.generate_structure_checks(env, tmp)
+    for f in tmp.findings:
+        if "/R01.a/" in f.key or "/engine/" in f.key:
+            res.add("premise", f.key.split("/", 2)[2], "the guards are not what decides which opcode is emitted: " + f.msg, f.where, f.detail)
     for unsafe in (False, True):
         tr = PV.get_trans(env, unsafe)
         for op, lvs in tr.items():
